@@ -86,10 +86,16 @@ def run_adjust(case):
         for i, s in enumerate(sn):
             outputs[s] = Sm[:, i].copy()
         sample = Sample(method_name='test', outputs=outputs, parameter_names=list(pn))
+        before = {k_: np.array(v_, copy=True) for k_, v_ in sample.outputs.items()}
         import warnings
         with warnings.catch_warnings():
             warnings.simplefilter('ignore')
-            return adjust_posterior(sample, m, sn, parameter_names=names_req)
+            out = adjust_posterior(sample, m, sn, parameter_names=names_req)
+        # the accepted sample handed in still holds the accepted values (the adjustment returns a NEW sample)
+        for k_, v_ in before.items():
+            if not np.array_equal(np.asarray(sample.outputs[k_]), v_, equal_nan=True):
+                raise Violation('C17:adjust-changes-the-accepted-sample', 'adjust_posterior changed the output %r of the sample it was given; %s' % (k_, ctx))
+        return out
     req = None
     if case['subset'] and len(pn) > 1:
         # any non-empty sub-list of the sample's parameters in any order
